@@ -53,6 +53,18 @@ def check_pdu(p):
         sp2 = P0.FinishedPdu.success_pdu(M.build_conf(p["conf"]))
         sp_.file_store_responses = [M.build_tlv(r) for r in p["responses"]] or [M.build_tlv({"t": "fsresp", "action": 0, "status": 0, "n1": "x", "n2": "", "msg": ""})]
         eq(devs, "defaults.finished_success_pdu_second_object_unaffected", bytes(sp2.pack()), M.ref_pdu(q_))
+    if kind == "finished" and any(r["status"] in (0, 15) for r in p["responses"]):
+        # the action-independent status members (SUCCESS = 0, NOT_PERFORMED = 15) give the same octets as the action-specific aliases
+        from spacepackets.cfdp import tlv as T0
+        from spacepackets.cfdp.lv import CfdpLv as Lv0
+
+        xg = M.build_pdu(p)
+        xg.file_store_responses = [
+            T0.FileStoreResponseTlv(T0.FilestoreActionCode(r["action"]), T0.FilestoreResponseStatusCode(r["status"]), r["n1"], r["n2"], Lv0(bytes.fromhex(r["msg"])))
+            if r["status"] in (0, 15) else M.build_tlv(r) for r in p["responses"]
+        ]
+        eq(devs, "generic_status_members.pack", bytes(xg.pack()), want)
+        eq(devs, "generic_status_members.packet_len", xg.packet_len, len(want))
     if kind == "ack":
         # an ACK rebuilt from what a decoder exposes (plain integers equal to the enum values) is the same ACK
         from spacepackets.cfdp import pdu as P
